@@ -129,7 +129,30 @@ def run(ctx):
             if d < -128 or d > 127:
                 bad_range.append({'id': cid, 'input': ls, 'output': lines, 'why': 'branch %s %s at line %d has displacement %d' % (m, t, i, d)})
                 break
-    ctx.cov['correspondence']['corr-S displacement'] = {'branches_checked': checked, 'out_of_range': len(bad_range)}
+    # compiled programs: inline assembly with declared sizes (also inside inline functions expanded in
+    # loops and ifs) must be counted with the size the SOURCE declares when branches are checked
+    from lib.gen_c import gen_program
+    from lib.pipeline import compile_variants, with_declared_asm_sizes
+    progs = {'p%d' % i: gen_program(rng, dict(hw=True, inline=True, asm_sized=True, calls=True, max_stmts=12, signed=False, shorts=False))
+             for i in range(250 if quick else 6000)}
+    comp = compile_variants({k: p.source() for k, p in progs.items()}, {'O1': ['-O1'], 'O0': ['-O0']})
+    pchecked = 0
+    for pid, vs in comp.items():
+        decl = getattr(progs[pid], 'asm_decl', {})
+        for O, r in vs.items():
+            if r['status'] != 'ok':
+                continue
+            for f in r['funcs']:
+                if f.get('final') is None or f.get('inline'):
+                    continue
+                lines = with_declared_asm_sizes(decl, norm_lines(f['final']))
+                for (i, m, t, d) in displacements(lines):
+                    pchecked += 1
+                    if d < -128 or d > 127:
+                        bad_range.append({'id': pid, 'program': progs[pid].source(), 'level': O, 'function': f['name'],
+                                          'why': 'branch %s %s at line %d of %s has displacement %d (inline assembly counted with its declared size)' % (m, t, i, f['name'], d)})
+                        break
+    ctx.cov['correspondence']['corr-S displacement'] = {'branches_checked': checked, 'out_of_range': len(bad_range), 'branches_checked_in_compiled_programs': pchecked}
     # flow: original vs repaired, all N/Z/C
     lay = flow_layout()
     text = []
